@@ -633,7 +633,7 @@ UNITS["v_read_only"] = dict(
 
 # ------------------------------------------------------------------------------------------------
 UNITS["v_constants"] = dict(
-    prop=["C12"], tier="q", prelude=["interp.rs", "typestate.rs"], native_witness={"C12": ["constants"]},
+    prop=["C12", "C01"], tier="q", prelude=["interp.rs", "typestate.rs"], native_witness={"C12": ["constants"]},
     fns=[
         dict(id="details_merge", file="src/compiler/type_def.rs", impl="impl Details", name="merge",
              orig_sig="fn merge(self, other: Self) -> Self",
@@ -685,6 +685,14 @@ UNITS["v_constants"] = dict(
              ensures=[("C12.variable.constant_is_binding", "the constant the compiler uses for a variable is exactly the constant recorded in its binding",
                        "r == const_of(*state, self.ident.id)")],
              safety_id="C12.variable_resolve_constant.safety"),
+        dict(id="variable_type_info", file="src/compiler/expression/variable.rs", impl="impl Expression for Variable", name="type_info",
+             orig_sig="fn type_info(&self, state: &TypeState) -> TypeInfo",
+             wrap=("impl Variable {", "}"), sig="pub fn type_info(&self, state: &TypeState) -> (r: TypeInfo)",
+             desugar=["map_or_else"],
+             rewrites=[dict(**{"from": "TypeInfo::new(state, result)", "to": "TypeInfo::new(state.clone(), result)", "count": 1, "why": "impl Into<TypeState> for &TypeState = clone"})],
+             ensures=[("C01.variable.type_is_binding", "reading a variable has exactly the type recorded in its binding (undefined when there is none) and changes no state",
+                       "r.state == *state && (match binding(state.local, self.ident.id) { Some(d) => r.result == d.type_def, None => r.result == TypeDef::spec_undefined().spec_infallible() })")],
+             safety_id="C01.variable_type_info.safety"),
         dict(id="insert_type_def", file="src/compiler/expression/assignment.rs", impl="impl Target", name="insert_type_def",
              orig_sig="fn insert_type_def(&self, state: &mut TypeState, new_type_def: TypeDef, value: Option<Value>)",
              wrap=("impl ATarget {", "}"), sig="pub fn insert_type_def(&self, state: &mut TypeState, new_type_def: TypeDef, value: Option<Value>)",
